@@ -10,9 +10,9 @@ from .common import pmap, load_known
 SAFE_PATHS = ["t", ".", "t/sub", "./t", "nonexist", "t/a b", "t/x,y", "t/2021-01"]
 FUNC_ARGS = ["", "a", "-1", "0", "1", "2.5", "x", "name", "size", "'é'", "99999999999999999999", "modified", "'2024-02-30'", "1, 2", "name, x", "name, 0",
              "name, -2, 1", "'a', 'b', 'c'", "size, y", "name, 1, x", "'', ''", "name, 99999999999", "-size", "size, 0.5", "9223372036854775807, 1",
-             "name, -2147483648", "name, -2147483647", "name, 2147483647", "name, 1, 18446744073709551615", "'+a'", "'-x'", "'+1.5'", "'٢٠٢٣-١٢-١١'", "'2023-12-١١'", "'+99'", "'-999'"]
+             "name, -2147483648", "name, -2147483647", "name, 2147483647", "name, 1, 18446744073709551615", "'+a'", "'-x'", "'+1.5'", "'٢٠٢٣-١٢-١١'", "'2023-12-١١'", "'+99'", "'-999'", "'12:61'", "'-0.79'", "'25:00:00'", "'-415é'"]
 LITERALS = ["maybe", "''", "2017-05-01 25", "'2017-13-45'", "'[a'", "'(unclosed'", "1.2.3", "10zb", "-", "+", "'*['", "%", "between", "and", "()",
-            "'+a'", "'-x'", "'+1.5'", "'-.5'", "'+'", "'-'", "'٢٠٢٣-١٢-١١'", "'2023-12-١١'", "'2023-12-11 ١'", "'+é'", "'+999'", "'-99'"]
+            "'+a'", "'-x'", "'+1.5'", "'-.5'", "'+'", "'-'", "'٢٠٢٣-١٢-١١'", "'2023-12-١١'", "'2023-12-11 ١'", "'+é'", "'+999'", "'-99'", "'12:61'", "'-0.79'", "'25:00:00'", "'-415é'", "'ab١cd'", "'-30:5'"]
 
 
 def build_tree(ctx):
